@@ -10,20 +10,31 @@ open C11_model
 (*INCLUDE zio*)
 
 let n_of_int (i : int) : n = match z_of_int i with Z0 -> N0 | Zpos p -> Npos p | Zneg _ -> failwith "neg"
-let int_of_n (x : n) : int = match x with N0 -> 0 | Npos p -> int_of_z (Zpos p)
+let rec int_of_pos (p : positive) : int = match p with XH -> 1 | XO q -> 2 * int_of_pos q | XI q -> 2 * int_of_pos q + 1
+let int_of_n (x : n) : int = match x with N0 -> 0 | Npos p -> int_of_pos p
 
+(* driver code is iterative (no recursion depth proportional to the length of a word / line / file) *)
+let byte_table : n array = Array.init 256 n_of_int
+let hexval c = match c with '0'..'9' -> Char.code c - 48 | 'a'..'f' -> Char.code c - 87 | 'A'..'F' -> Char.code c - 55 | _ -> failwith "hex"
 let bytes_of_hex (s : string) : n list =
   if s = "-" then [] else begin
-    let n = String.length s / 2 in
-    List.init n (fun i -> n_of_int (int_of_string ("0x" ^ String.sub s (2 * i) 2))) end
+    let acc = ref [] in
+    for i = String.length s / 2 - 1 downto 0 do
+      acc := byte_table.(16 * hexval s.[2 * i] + hexval s.[2 * i + 1]) :: !acc
+    done;
+    !acc end
 let hex_of_bytes (l : n list) : string =
-  if l = [] then "-" else String.concat "" (List.map (fun b -> Printf.sprintf "%02x" (int_of_n b)) l)
+  if l = [] then "-" else begin
+    let b = Buffer.create 4096 in
+    List.iter (fun x -> Buffer.add_string b (Printf.sprintf "%02x" (int_of_n x))) l;
+    Buffer.contents b end
 
 let mode_of = function "copy" -> MCopy | "single" -> MSingle | "union" -> MUnion | "multiple" -> MMultiple | _ -> failwith "mode"
 let cfg m c p = { cmode = mode_of m; cctx = (c = "1"); cphrase = (p = "1") }
 
 let show = function
-  | FOk files -> "OK" ^ String.concat "" (List.map (fun f -> " " ^ hex_of_bytes f) files)
+  | FOk files -> let b = Buffer.create 4096 in Buffer.add_string b "OK";
+                 List.iter (fun f -> Buffer.add_char b ' '; Buffer.add_string b (hex_of_bytes f)) files; Buffer.contents b
   | FNoTab -> "NOTAB"
   | FOutOfFuel -> "FUEL"
 
